@@ -444,7 +444,7 @@ class Simplex:
                 self.bound[s] = (Pair(-math.inf, 0), Pair(math.inf, 0))
 
         elif isinstance(ineq, LessEq):
-            if len(ineq.jars) == 1: # a * x <= b
+            if len(ineq.jars) == 1 and ineq.jars[0].coeff != 0: # a * x <= b
                 jar = ineq.jars[0]
                 coeff, var_name, upper_bound = jar.coeff, jar.var, ineq.upper_bound
                 self.input_vars.add(var_name)
